@@ -3,7 +3,7 @@
    Model/Selection.v upd: `max_distance > 0.0`, i.e. ltb zero range.  Only the enclosing `if` tests of
    the designated statement are translated in this mode (crowding_distance sorts object lists in place,
    outside the translated subset); how max_distance is computed is covered by the correspondence. *)
-From Coq Require Import List ZArith Bool Arith.
+From Coq Require Import List ZArith Bool Arith Lia ZifyBool.
 From Artap Require Import Model.Selection.
 From ArtapGen Require Import GenTactics CrowdingGuardGen.
 Import ListNotations.
@@ -24,6 +24,18 @@ Section CrowdingGuardEquiv.
          else (x, acc).
   Proof. intros. rewrite crowding_guard_gen_eq_model. reflexivity. Qed.
 End CrowdingGuardEquiv.
+
+(* the assignments of inf to front[0] before the loops: the first (of three textual occurrences) is
+   reached exactly for n = 1, the second exactly for n = 2; with the `n == 0: return` branch these are
+   the fronts the model answers with Inf for every member (`length f <=? 2` in Selection.crowding).
+   The third occurrence sits in the per-objective loop (no enclosing test). *)
+Theorem crowding_inf_guards_eq_model : forall n : nat,
+  crowding_inf1_guard_gen n = (n =? 1)%nat /\ crowding_inf2_guard_gen n = (n =? 2)%nat.
+Proof. intros n. unfold crowding_inf1_guard_gen, crowding_inf2_guard_gen. split; case_ifs; lia. Qed.
+
+Theorem crowding_inf_guards_small_front : forall n : nat,
+  (n =? 0)%nat || crowding_inf1_guard_gen n || crowding_inf2_guard_gen n = (n <=? 2)%nat.
+Proof. intros n. destruct (crowding_inf_guards_eq_model n) as [-> ->]. lia. Qed.
 
 (* the binary64 instance: Python's `max_distance > 0.0` with the literal 0.0 *)
 From Coq Require Import Floats.
